@@ -104,6 +104,19 @@ def showEvs (evs : List Ev) : String :=
 
 def fuelFor (ws : List UInt64) : Nat := ws.length + 2
 
+/-- rapid compares failures by the text of a traceback of at most 32 frames.  A panic raised by
+    a cleanup callback while two or more other panics are in flight (the body's and earlier
+    callbacks') has a traceback that is cut off; which of such failures rapid takes for "the same"
+    depends on frame counts the model does not have.  The driver does not decide such cases. -/
+def deepErr : Option Err → Bool
+  | some e => e.site ≥ ctxStep * ctxStep
+  | none => false
+
+def deepMsg : String := "not-compared: traceback of a panic nested in two or more panics"
+
+/-- can the program raise a panic from a cleanup at all -/
+def mayNest (src : String) : Bool := (src.splitOn "(cleanup").length > 1
+
 /-- run a primitive on a buffer and print like corrPrims -/
 def runPrim (args : List String) (ws : List UInt64) : String :=
   let ft := Rapid.Generated.ft
@@ -315,6 +328,7 @@ def handle (line : String) : String :=
       let checks := checks.toNat!
       let cands : List (List UInt64) := (spaceSplit (fs.getD 2 "")).map fun c => parseWords (stripEnd ';' c)
       let fb := findBug p checks (UInt64.ofNat seed.toNat!) (fun _ => false)
+      if mayNest (fs.getD 0 "") && (deepErr fb.err || cands.any fun c => deepErr (checkOnce p (.buf c) TS.fresh).err) then deepMsg else
       match fb.err with
       | none =>
         let d : DC := ⟨fb.valid, fb.invalid, fb.early, 0, none, [], none, none, fb.seeds⟩
@@ -347,6 +361,7 @@ def handle (line : String) : String :=
           s!"verdict={showVerdict (verdict checks d)} rng={fb.seeds.length + 1} runs= final={joinWords r.used}"
         else
           let so := shrinkFull p r.toks r.err 100000
+          if mayNest (fs.getD 0 "") && (deepErr r.err || so.log.any fun c => deepErr (checkOnce p (.buf c) TS.fresh).err) then deepMsg else
           match so.crashed with
           | some what => s!"crashed={under what} runs={" ".intercalate (so.log.map fun b => joinWords b ++ ";")}"
           | none =>
